@@ -228,14 +228,17 @@ def check_mapping(ctx, S, T, case, combo):
 def make_incon(rng, geo, nvar):
     t2i = R.t2incons
     inc = t2i.t2incon()
+    # TOUGHREACT-flavoured sets carry a permeability triple per block: part of the block's state
+    react = rng.random() < 0.4
     for n in geo.block_name_list:
+        perm = [round(rng.uniform(1e-16, 1e-12), 18) for _ in range(3)] if react else None
         inc[n] = t2i.t2blockincon([round(rng.uniform(1e5, 1e7), 1)] + [round(rng.uniform(10, 300), 3) for _ in range(nvar - 1)], n,
-                                  porosity=rng.choice([None, 0.1, round(rng.uniform(0.01, 0.4), 4)]))
+                                  porosity=rng.choice([None, 0.1, round(rng.uniform(0.01, 0.4), 4)]), permeability=perm)
     return inc
 
 
 def snapshot_incon(inc):
-    return [(b.block, tuple(b.variable), b.porosity) for b in inc]
+    return [(b.block, tuple(b.variable), b.porosity, None if b.permeability is None else tuple(b.permeability)) for b in inc]
 
 
 def check_incon_transfer(ctx, S, T, case, combo, own_mapping):
@@ -299,6 +302,13 @@ def check_incon_transfer(ctx, S, T, case, combo, own_mapping):
                 return
         else:
             exp = list(src[own_mapping[0][n]].variable)
+            sp, dp = src[own_mapping[0][n]].permeability, dst[n].permeability
+            if sp is not None:
+                ctx.count('states_with_permeability')
+            if (sp is None) != (dp is None) or (sp is not None and list(sp) != list(dp)):
+                ctx.violation('incon-transfer:underground-state:permeability', 'block %r permeability %r, mapped source block %r has %r' % (
+                    n, dp, own_mapping[0][n], sp), case)
+                return
             if got != exp or dst[n].porosity != src[own_mapping[0][n]].porosity:
                 ctx.violation('incon-transfer:underground-state', 'block %r state %r / porosity %r, mapped source block %r has %r / %r' % (
                     n, got, dst[n].porosity, own_mapping[0][n], exp, src[own_mapping[0][n]].porosity), case)
